@@ -30,6 +30,25 @@ func (w *World) SetSampleFloat(v, i int, f float64) {
 	w.emit(&Event{Op: "SetSample", Args: []int{v + 1, i, int(codeOf(f))}, Res: res, Cnt: -1, Allocs: lastAllocs})
 }
 
+func (w *World) ChanSetFloat(v, c, i int, f float64) {
+	res := run(func() { w.Views[v].ChanSetF64(c, i, f) })
+	w.emit(&Event{Op: "ChanSet", Args: []int{v + 1, c, i, int(codeOf(f))}, Res: res, Cnt: -1, Allocs: lastAllocs})
+}
+
+// signFlip writes -0 over +0 and +0 over -0 at position i of a float view (a store must change the bits even
+// when the old and new value compare equal), through SetSample and, when c >= 0, through the channel view.
+func (w *World) signFlip(v, i, c, fi int) {
+	nz := math.Copysign(0, -1)
+	w.SetSampleFloat(v, i, 0)
+	w.SetSampleFloat(v, i, nz)
+	w.SetSampleFloat(v, i, 0)
+	if c >= 0 {
+		w.ChanSetFloat(v, c, fi, nz)
+		w.ChanSetFloat(v, c, fi, 0)
+		w.ChanSetFloat(v, c, fi, nz)
+	}
+}
+
 // isFloatTy reports whether a harness element type is a floating-point type.
 func isFloatTy(ty string) bool { return kindClass(KindOf(ty)) == "Float" }
 
